@@ -189,7 +189,12 @@ def value_sources(fn: FunctionInfo, expr: ast.expr, at: Optional[Node] = None, _
         elif d.kind == "assign" and d.value is not None:
             out += value_sources(fn, d.value, d.node, _depth + 1, _seen)
         elif d.kind == "unpack":
-            out.append(("unpack", (d.value, d.index, d.node)))
+            if isinstance(d.value, (ast.Tuple, ast.List)) and d.index is not None and d.index < len(d.value.elts) \
+                    and not any(isinstance(e, ast.Starred) for e in d.value.elts):
+                # a, b = x, y  -- plain parallel assignment
+                out += value_sources(fn, d.value.elts[d.index], d.node, _depth + 1, _seen)
+            else:
+                out.append(("unpack", (d.value, d.index, d.node)))
         elif d.kind in ("for",):
             out.append(("iter", (d.value, d.index, d.node)))
         elif d.kind == "with":
